@@ -133,8 +133,21 @@ class Ctx:
                     mm = FORBIDDEN.search(txt)
                     if mm:
                         self.proof_failures.append("forbidden token %r in %s" % (mm.group(0), f))
+        # thorough tier: independent re-check of the property file and everything it depends on
+        if getattr(self, "thorough", False):
+            t = time.time()
+            rc, out = sh("coqchk -o -silent -Q %s GGRS GGRS.props.%s" % (COQ, self.pid), timeout=3000, cwd=COQ)
+            self.log("coqchk props.%s rc=%d (%.1fs)" % (self.pid, rc, time.time() - t))
+            m = re.search(r"\* Axioms:(.*?)\n\s*\n", out, re.S)
+            chk_axioms = [a.strip() for a in (m.group(1).splitlines() if m else []) if a.strip() and a.strip() != "<none>"]
+            self.cov["coqchk"] = {"rc": rc, "axioms": chk_axioms or ["<none>"]}
+            badchk = [a for a in chk_axioms if a.split(".")[-1] not in {x.split(".")[-1] for x in AXIOM_ALLOW}]
+            if rc != 0:
+                self.proof_failures.append("coqchk rejected props.%s: %s" % (self.pid, out[-300:]))
+            elif badchk:
+                self.proof_failures.append("coqchk lists axioms outside the allow-list: " + ", ".join(badchk))
         self.cov["trusted_base"] = [
-            "Coq 8.16.1 kernel (coqc, vm_compute; no native_compute)",
+            "Coq 8.16.1 kernel (coqc, vm_compute; no native_compute)" + ("; coqchk re-check of the property file's cone" if getattr(self, "thorough", False) else ""),
             "axioms per Print Assumptions: " + ", ".join(self.cov["axioms"]),
             "tools/consts.py (constants regenerated from /repo/src into coq/Consts.v)",
             "extraction (ExtrOcamlBasic only) + ocaml/driver.ml; Rust harness + verif-hooks wrappers (correspondence = differential testing)",
